@@ -26,7 +26,7 @@ import (
 // ---- bag models
 
 func randBagModel(r *rand.Rand) *rosgen.BagModel {
-	b := &rosgen.BagModel{Chunked: r.Intn(4) != 0, Compression: []string{"none", "lz4"}[r.Intn(2)], MsgsPerChunk: 1 + r.Intn(12), RepeatConnEvery: r.Intn(3) == 0,
+	b := &rosgen.BagModel{Chunked: r.Intn(4) != 0, Compression: []string{"none", "lz4", "mixed"}[r.Intn(3)], MsgsPerChunk: 1 + r.Intn(12), RepeatConnEvery: r.Intn(3) == 0,
 		IndexSection: r.Intn(4) != 0, IndexDataRecords: r.Intn(3) != 0, ConnFirst: r.Intn(2) == 0}
 	nc := 1 + r.Intn(6)
 	types := []struct{ typ, md5, def string }{
@@ -34,6 +34,12 @@ func randBagModel(r *rand.Rand) *rosgen.BagModel {
 		{"std_msgs/String", "00000000000000000000000000000001", "string data\n# other revision\n"}, // same type, different md5
 		{"geometry_msgs/Point", "4a842b65f413084dc2b10fb484ea7f17", "float64 x\nfloat64 y\nfloat64 z\n"},
 		{"pkg/Empty", "d41d8cd98f00b204e9800998ecf8427e", ""},
+		// md5sum is a free-form string field of the connection header ("*" is what ROS tools store for
+		// untyped topics); type names of which one is a prefix of the other, with checksum strings such that
+		// type+checksum coincide, must still be told apart
+		{"demo/Vec", "3aaaaaaaaaaaaaaaaaaaaaaaaaaaaaaa", "float64 x\n"},
+		{"demo/Vec3", "aaaaaaaaaaaaaaaaaaaaaaaaaaaaaaa", "float64 x\nfloat64 y\nfloat64 z\n"},
+		{"demo/Any", "*", ""},
 		{"pkg/Nested", "abcdefabcdefabcdefabcdefabcdefab", "Header header\npkg/Inner inner\n================================================================================\nMSG: std_msgs/Header\nuint32 seq\ntime stamp\nstring frame_id\n================================================================================\nMSG: pkg/Inner\nint32[] v\n"},
 	}
 	used := map[uint32]bool{}
